@@ -76,7 +76,7 @@ func (w *jobctlWorld) boot() {
 	w.ctx.Sim().Jobs().ResetHandlers()
 	w.ctx.Sim().Pods().ResetHandlers()
 	w.q = sim.NewDetQueue(w.clk)
-	w.q.Candidates = w.deadlines // every deferred re-sync of this controller targets one of these instants
+	w.q.Candidates = w.snapCandidates // every deferred re-sync of this controller targets one of these instants
 	jctx := jobcontroller.NewContextWithRecorder(w.ctx, &record.FakeRecorder{})
 	jctx.VerifSetQueue(w.q)
 	jobcontroller.NewInformerWorker(jctx)
@@ -443,6 +443,48 @@ func (w *jobctlWorld) deadlines() []int64 {
 	return ds
 }
 
+// snapCandidates: the instants a deferred re-sync of the controller can target (DetQueue snaps the
+// deadline it recovers from the process clock to the nearest of them): deadlines(), plus what
+// only the running sync knows.  It acts on the CACHED Job, which may be older than the
+// authoritative one, and it may have computed the finish instant itself (not yet written): the
+// latest finish of a task, the kill timestamp, or the present.  TTL expiry is finish + the
+// EFFECTIVE TTL (job value, else the config default).  All instants are whole seconds, so extra
+// candidates cannot capture a deadline that is not theirs.
+func (w *jobctlWorld) snapCandidates() []int64 {
+	ds := w.deadlines()
+	ttl := int64(0)
+	fins := []int64{w.now()}
+	for _, j := range []*execution.Job{w.apiJob(), w.cachedJob} {
+		if j == nil {
+			continue
+		}
+		ttl = int64(jobutil.GetTTLAfterFinished(j, w.cfg)) // spec.ttlSecondsAfterFinished is immutable
+		if j.Spec.KillTimestamp != nil {
+			ds = append(ds, j.Spec.KillTimestamp.UnixNano())
+			fins = append(fins, j.Spec.KillTimestamp.UnixNano())
+		}
+		if cf := j.Status.Condition.Finished; cf != nil {
+			fins = append(fins, cf.FinishTimestamp.UnixNano())
+		}
+		for _, r := range j.Status.Tasks {
+			if !r.FinishTimestamp.IsZero() {
+				fins = append(fins, r.FinishTimestamp.UnixNano())
+			}
+		}
+	}
+	for _, p := range w.ownedPods() {
+		for _, cs := range p.Status.ContainerStatuses {
+			if cs.State.Terminated != nil {
+				fins = append(fins, cs.State.Terminated.FinishedAt.UnixNano())
+			}
+		}
+	}
+	for _, f := range fins {
+		ds = append(ds, f+ttl)
+	}
+	return ds
+}
+
 // jumpToDeadline advances the clock to one second before, exactly at, or one second after one
 // of the pending deadlines (whichever lies in the future), so that syncs land on both sides of
 // every time comparison.
@@ -529,10 +571,11 @@ func (w *jobctlWorld) checkNoStaleCopy() {
 }
 
 // checkEnvelope evaluates E-OrphanVisible for the sync that is about to run: when the cached
-// Job can no longer create tasks (kill timestamp or admission error set), every pod owned by
-// the Job on the server that is not listed in the cached status must be in the pod cache
-// (unrecorded tasks are adopted from the cache). Absence of status-listed pods from the cache
-// is harmless since the controller confirms it with a live GET.
+// Job can no longer create tasks (kill timestamp or admission error set) or is being deleted,
+// every pod owned by the Job on the server that is not listed in the cached status must be in
+// the pod cache (unrecorded tasks are adopted from the cache — by the kill sweep since fix
+// 5671da6, by the finalizer since the repair of F-C20-1). Absence of status-listed pods from the
+// cache is harmless since the controller confirms it with a live GET.
 func (w *jobctlWorld) checkEnvelope() {
 	o, ok := w.ctx.Sim().Jobs().CacheGet(&execution.Job{ObjectMeta: metav1.ObjectMeta{Namespace: "ns", Name: "job"}})
 	if !ok {
@@ -551,7 +594,7 @@ func (w *jobctlWorld) checkEnvelope() {
 		if listed[p.Name] {
 			continue
 		}
-		if _, cached := w.ctx.Sim().Pods().CacheGet(&corev1.Pod{ObjectMeta: metav1.ObjectMeta{Namespace: "ns", Name: p.Name}}); !cached || cj.DeletionTimestamp != nil {
+		if _, cached := w.ctx.Sim().Pods().CacheGet(&corev1.Pod{ObjectMeta: metav1.ObjectMeta{Namespace: "ns", Name: p.Name}}); !cached {
 			if !w.envelopeBroken {
 				w.c.Count("jc.envelope.orphan-invisible")
 			}
@@ -858,6 +901,17 @@ func (w *jobctlWorld) monitorJobVersion() {
 					if ref := metav1.GetControllerOf(p); ref != nil && string(ref.UID) == w.uid && !w.envelopeBroken {
 						w.c.Violate("C13", "job-gone-implies-tasks-gone", "Job removed while its task %s still exists", r.Name)
 					}
+				}
+			}
+			// … and so must every task it created but never recorded (the finalizer adopts them from
+			// the pod cache: inside E-OrphanVisible none is left behind)
+			listed := map[string]bool{}
+			for _, r := range w.prevJob.Status.Tasks {
+				listed[r.Name] = true
+			}
+			for _, p := range w.ownedPods() {
+				if !listed[p.Name] && !w.envelopeBroken {
+					w.c.Violate("C13", "job-gone-implies-tasks-gone", "Job removed while its task %s (created, never recorded) still exists", p.Name)
 				}
 			}
 		}
